@@ -18,7 +18,10 @@ extern int env_msg_live;
 
 static nni_pipe kpipe[MAXP];
 static int      kpipe_up[MAXP]; /* attached and not yet torn down */
-static nni_aio  uaio[MAXU];     /* user aios */
+/* user aios are separate objects (not an array): a write through a pointer that
+ * list.c derived by arithmetic then clobbers one aio, not all of them */
+static nni_aio  uaio_a, uaio_b, uaio_c, uaio_d;
+#define uaio_at(i) (*((i) == 0 ? &uaio_a : (i) == 1 ? &uaio_b : (i) == 2 ? &uaio_c : &uaio_d))
 static int      uaio_used[MAXU];
 static nni_msg *umsg[MAXU];     /* message given to user send i */
 static int      umsg_id[MAXU];
@@ -51,24 +54,24 @@ kmsg(size_t len)
 static void
 kuaio_prepare(int i, int blocking)
 {
-	nni_aio_init(&uaio[i], NULL, NULL);
+	nni_aio_init(&uaio_at(i), NULL, NULL);
 	uaio_used[i] = 1;
 	if (blocking) {
-		nni_aio_set_timeout(&uaio[i], NNG_DURATION_INFINITE);
+		nni_aio_set_timeout(&uaio_at(i), NNG_DURATION_INFINITE);
 	} else {
-		nni_aio_set_timeout(&uaio[i], NNG_DURATION_ZERO); /* NNG_FLAG_NONBLOCK */
+		nni_aio_set_timeout(&uaio_at(i), NNG_DURATION_ZERO); /* NNG_FLAG_NONBLOCK */
 	}
 }
-#define KDONE(i) (env_aio_completed(&uaio[i]) > 0)
-#define KPENDING(i) (uaio_used[i] && env_aio_outstanding(&uaio[i]))
+#define KDONE(i) (env_aio_completed(&uaio_at(i)) > 0)
+#define KPENDING(i) (uaio_used[i] && env_aio_outstanding(&uaio_at(i)))
 /* the result is what the completion reported (a later nng_aio_cancel on the
  * idle aio may overwrite a_result; that is not a report of the operation) */
 static nng_err
 kresult(int i)
 {
-	if (!kseen[i] && env_aio_completed(&uaio[i]) > 0) {
+	if (!kseen[i] && env_aio_completed(&uaio_at(i)) > 0) {
 		kseen[i] = 1;
-		kres[i]  = nni_aio_result(&uaio[i]);
+		kres[i]  = nni_aio_result(&uaio_at(i));
 	}
 	return kres[i];
 }
